@@ -34,14 +34,18 @@ PALETTES = [dict(x0=0.0, dx=1.0, y0=0.0, z0=0.0), dict(x0=-2.5, dx=1.5, y0=0.25,
 
 
 # =========================================================================== B
+def _first_plus_zero(a, b):
+    return a + 0 * b
+
+
 def world_space(tier, pal):
     if tier == 'quick':
         dims = dict(ndim=[2], coords=['none', 'affine'], derived=['none', 'binary', 'function'],
-                    join=['none', 'single', 'tuple'], link=['none', 'same'], groups=[0, 2],
+                    join=['none', 'single', 'tuple'], link=['none', 'same', 'mixed'], groups=[0, 2],
                     deco=['plain', 'styled+meta'])
     else:
         dims = dict(ndim=[1, 2], coords=['none', 'affine', 'identity'], derived=['none', 'binary', 'function'],
-                    join=['none', 'single', 'tuple'], link=['none', 'same', 'function'], groups=[0, 1, 2],
+                    join=['none', 'single', 'tuple'], link=['none', 'same', 'function', 'mixed'], groups=[0, 1, 2],
                     deco=['plain', 'styled', 'meta', 'styled+meta'])
     names = sorted(dims)
     out = []
@@ -86,6 +90,10 @@ def build_world(w):
         dc.add_link(LinkSame(e.id['y'], f.id['z']))
     elif w['link'] == 'function':
         dc.add_link(ComponentLink([e.id['y']], f.id['z'], using=identity))
+    elif w['link'] == 'mixed':
+        # identity link plus a two-input link whose inputs span two datasets, one of them the output's own
+        dc.add_link(LinkSame(e.id['y'], f.id['z']))
+        dc.add_link(ComponentLink([e.id['k'], f.id['z']], e.id['k3'], using=_first_plus_zero))
     if w['groups'] >= 1:
         lo, hi = p['x0'] + 0.5 * p['dx'], p['x0'] + 3.5 * p['dx']
         g = dc.new_subset_group('g1', (d.id['x'] > lo) & ~(d.id['x'] > hi))
